@@ -33,6 +33,7 @@ type c18Case struct {
 	Sched []int   `json:"schedule"` // explorer choice vector
 	Bound int     `json:"bound"`
 	Fine  bool    `json:"fine_grained"` // accesses to package-level state and lock operations are scheduling points too
+	Step  bool    `json:"statement_grained,omitempty"` // every statement of the library is a scheduling point (implies Fine)
 }
 
 // tctx is what one logical thread (or one free-running goroutine) works with.
@@ -274,7 +275,7 @@ func c18Ops() []c18Op {
 var c18Small = []int{0, 1, 3, 4, 6, 13} // sub-alphabet for 2-op programs and 3 threads
 
 // c18Execute runs the thread programs under the cooperative scheduler driven by run r.
-func c18Execute(progs [][]int, r *engine.Run, fine bool) (results []string, s *engine.Sched, sharedIntact bool) {
+func c18Execute(progs [][]int, r *engine.Run, lvl int) (results []string, s *engine.Sched, sharedIntact bool) {
 	ops := c18Ops()
 	s = engine.NewSched(r)
 	seam := engine.NewSeam(nil, nil)
@@ -283,7 +284,22 @@ func c18Execute(progs [][]int, r *engine.Run, fine bool) (results []string, s *e
 	seam.Before = func() { s.Point("rand.Read") }
 	restore := engine.Install(seam)
 	defer restore()
+	fine := lvl >= 1
 	if engine.InstrumentedBuild() {
+		// map iteration order is nondeterminism the scheduler does not own: pin it (sorted keys), otherwise the
+		// number of statements executed (e.g. comparisons of a later sort) differs between executions
+		engine.SetMapOrderHook(func(n int) []int {
+			p := make([]int, n)
+			for i := range p {
+				p[i] = i
+			}
+			return p
+		})
+		defer engine.SetMapOrderHook(nil)
+		if lvl >= 2 {
+			engine.SetStepHook(func() { s.Point("statement") })
+			defer engine.SetStepHook(nil)
+		}
 		rd := newRaceDetector(len(progs))
 		s.Race = rd
 		engine.SetSchedHooks(func(label string) { rd.syncOp(s.Current()); s.Point(label) }, s.Block)
@@ -316,7 +332,8 @@ func c18Execute(progs [][]int, r *engine.Run, fine bool) (results []string, s *e
 var c18SoloCache = map[string]string{}
 
 // c18Solo is what a program returns when run alone (as thread index ti, so that contents match).
-func c18Solo(ti int, prog []int, fine bool) string {
+func c18Solo(ti int, prog []int, lvl int) string {
+	fine := lvl >= 1
 	key := fmt.Sprint(ti, prog, fine)
 	if v, ok := c18SoloCache[key]; ok {
 		return v
@@ -324,7 +341,11 @@ func c18Solo(ti int, prog []int, fine bool) string {
 	progs := make([][]int, ti+1)
 	progs[ti] = prog
 	// threads with empty programs finish immediately; thread ti runs alone
-	res, _, _ := c18Execute(progs, engine.NewReplayRun(nil), fine)
+	lv := 0
+	if fine {
+		lv = 1
+	}
+	res, _, _ := c18Execute(progs, engine.NewReplayRun(nil), lv)
 	c18SoloCache[key] = res[ti]
 	return res[ti]
 }
@@ -347,17 +368,25 @@ func init() {
 				c18Footprints(c, cs.Progs[0])
 				return
 			}
-			c18One(c, cs.Progs, engine.NewReplayRun(cs.Sched), cs.Bound, cs.Fine)
+			lv := 0
+			if cs.Fine {
+				lv = 1
+			}
+			if cs.Step {
+				lv = 2
+			}
+			c18One(c, cs.Progs, engine.NewReplayRun(cs.Sched), cs.Bound, lv)
 		},
 	})
 }
 
-func c18One(c *engine.Ctx, progs [][]int, r *engine.Run, bound int, fine bool) {
+func c18One(c *engine.Ctx, progs [][]int, r *engine.Run, bound int, lvl int) {
 	c.Evals++
-	res, s, intact := c18Execute(progs, r, fine)
+	fine := lvl >= 1
+	res, s, intact := c18Execute(progs, r, lvl)
 	c.Transitions += int64(s.Points)
 	c.Traces++
-	cs := func() c18Case { return c18Case{Progs: progs, Sched: r.Choices(), Bound: bound, Fine: fine} }
+	cs := func() c18Case { return c18Case{Progs: progs, Sched: r.Choices(), Bound: bound, Fine: fine, Step: lvl >= 2} }
 	ops := c18Ops()
 	names := func() string {
 		var p []string
@@ -379,7 +408,7 @@ func c18One(c *engine.Ctx, progs [][]int, r *engine.Run, bound int, fine bool) {
 		c.Violate("deadlock", fmt.Sprintf("%s: no thread can continue; %s", names(), s.Describe()), cs())
 		return
 	}
-	if s.Points > 1500 {
+	if s.Points > 1500 && lvl < 2 {
 		c.Note(fmt.Sprintf("execution with %d scheduling points: %s fine=%v", s.Points, names(), fine))
 	}
 	if s.Livelock {
@@ -394,7 +423,7 @@ func c18One(c *engine.Ctx, progs [][]int, r *engine.Run, bound int, fine bool) {
 		return
 	}
 	for ti := range progs {
-		want := c18Solo(ti, progs[ti], fine)
+		want := c18Solo(ti, progs[ti], lvl)
 		if res[ti] != want {
 			var n []string
 			for _, o := range progs[ti] {
@@ -416,7 +445,7 @@ func runC18(c *engine.Ctx) {
 	ops := c18Ops()
 	n := len(ops)
 	explore := func(progs [][]int, bound int) {
-		st := engine.Explore(bound, 200000, func(r *engine.Run) { c18One(c, progs, r, bound, false) }, func(r *engine.Run) {})
+		st := engine.Explore(bound, 200000, func(r *engine.Run) { c18One(c, progs, r, bound, 0) }, func(r *engine.Run) {})
 		c.Count("schedules", st.Executions)
 		if engine.InstrumentedBuild() && (c.Thorough() || len(progs[0]) == 1) {
 			// fine-grained phase: every access to package-level state and every lock operation is a scheduling
@@ -431,10 +460,22 @@ func runC18(c *engine.Ctx) {
 			if bound < fb {
 				fb = bound
 			}
-			st2 := engine.Explore(fb, 100000, func(r *engine.Run) { c18One(c, progs, r, fb, true) }, func(r *engine.Run) {})
+			st2 := engine.Explore(fb, 100000, func(r *engine.Run) { c18One(c, progs, r, fb, 1) }, func(r *engine.Run) {})
 			c.Count("schedules(fine-grained)", st2.Executions)
 			if st2.Capped {
 				c.Cap(fmt.Sprintf("fine-grained execution cap for programs %v", progs))
+			}
+			// statement-grained phase: every statement of the library is a scheduling point; one preemption
+			// (thread A is stopped before any one of its statements, the others run, A resumes) — this
+			// reaches shared heap objects that are only *obtained* through package-level state and mutated
+			// later through local pointers, which the access points above do not separate
+			if len(progs) == 2 && len(progs[0]) == 1 {
+				sb := 1
+				st3 := engine.Explore(sb, 100000, func(r *engine.Run) { c18One(c, progs, r, sb, 2) }, func(r *engine.Run) {})
+				c.Count("schedules(statement-grained)", st3.Executions)
+				if st3.Capped {
+					c.Cap(fmt.Sprintf("statement-grained execution cap for programs %v", progs))
+				}
 			}
 		}
 		if st.Capped {
@@ -713,7 +754,7 @@ func c18Footprint(oi, k int) footprint {
 	before := dumpGlobals()
 	progs := make([][]int, k+1)
 	progs[k] = []int{oi}
-	_, s, _ := c18Execute(progs, engine.NewReplayRun(nil), false)
+	_, s, _ := c18Execute(progs, engine.NewReplayRun(nil), 0)
 	after := dumpGlobals()
 	var fp footprint
 	for v, d := range after {
@@ -826,4 +867,25 @@ func c18Footprints(c *engine.Ctx, opIdx []int) {
 			}
 		}
 	}
+}
+
+// C18StepDebug prints, per op, the number of scheduling points of five consecutive solo runs at statement
+// granularity (they must be equal: the exploration relies on executions being reproducible).
+func C18StepDebug() int {
+	ops := c18Ops()
+	bad := 0
+	for oi := range ops {
+		var ns []int
+		for i := 0; i < 5; i++ {
+			_, s, _ := c18Execute([][]int{{oi}}, engine.NewReplayRun(nil), 2)
+			ns = append(ns, s.Points)
+		}
+		fmt.Println(oi, ops[oi].name, ns)
+		for _, n := range ns {
+			if n != ns[0] {
+				bad = 1
+			}
+		}
+	}
+	return bad
 }
